@@ -156,9 +156,26 @@ def ts_cached(m, meta):
                     problems.append(("recomputed" if len(calls) != n else "not recomputed", "previous size", last, "now", state["ts"]))
                     break
                 last = state["ts"]
+        # the terminal is resized WHILE the wrapped function runs: the value it returns belongs to the old size, and the next call -
+        # made at the new size - has to compute again
+        if not problems:
+            state["ts"] = (80, 30)
+            ran = []
+
+            def body():
+                ran.append(state["ts"])
+                seen = state["ts"]
+                if len(ran) == 1:
+                    state["ts"] = (132, 43)             # resize lands in the middle of the first call
+                return ("value for", seen)
+            g = U.terminal_size_cached(body)
+            g()
+            r2 = g()
+            if r2 != ("value for", (132, 43)):
+                problems.append(("resize during the first call: the second call, at the new size", state["ts"], "was served", r2, "body runs", len(ran)))
     finally:
         U.get_terminal_size = saved
-    return {"reproduced": bool(problems), "input": "600 random resize / call / failing call / invalidate steps", "observed": problems[:2]}
+    return {"reproduced": bool(problems), "input": "600 random resize / call / failing call / invalidate steps; a resize during a call", "observed": problems[:2]}
 
 
 def toggles(m, meta):
